@@ -13,6 +13,7 @@ def main():
         print('%-8s %6.2fs %-10s %s  (%d q)' % (o['status'], o['time_s'], o['backend'], o['name'], o['nqueries']))
         if o['status'] != 'discharged':
             print('     clause:', o['clause_text'])
+            print('     per query:', o.get('per_query'))
             print('     ', (o['model'] or o['solver_output'] or '')[:1500].replace('\n', '\n      '))
     for e in r['errors'] + r['outside_subset']:
         print('ERR', e)
